@@ -318,6 +318,14 @@ def handleE2E : Handler := fun s =>
           (if kms.length < (d.masters.filter (!·.sparse)).length then ["kernless-master"] else []) ++
           (if kernedWhereDivergent srcs then ["hyp-holds"] else ["hyp-fails"])
         let nt := srcs.length ≥ 2 && hasKern && srcs.any fun s => !s.groups1.isEmpty || !s.groups2.isEmpty
+        -- a glyph listed in two groups of one side in one master is not a valid UFO3: outside the property
+        let invalid := d.masters.any fun m => ["public.kern1.", "public.kern2."].any fun pre =>
+          let gs := m.groups.filter fun g => g.1.startsWith pre
+          let all := gs.flatMap (·.2)
+          all.length != all.eraseDups.length
+        if invalid then
+          { corr := none, oracle := none, nontrivial := false, tags := tags ++ ["invalid-groups"],
+            detail := s!"built; latn check: {badL.getD "ok"}" } else
         match badL, badD with
         | some msg, _ => { corr := some corrL, oracle := some false, nontrivial := nt, tags,
                            cls := if overlap then "kern-differs-overlapping-classes" else "kern-differs-from-source", detail := "latn: " ++ msg }
